@@ -1,6 +1,7 @@
 package main
 
 import (
+	"context"
 	"fmt"
 	"strings"
 	"sync"
@@ -240,8 +241,8 @@ type emitter struct {
 func (e *emitter) onFrame(f chanpair.Frame) [][]byte {
 	e.mu.Lock()
 	defer e.mu.Unlock()
-	if !e.armed || f.Dir != e.dir || len(e.base) >= e.nplan {
-		return chanpair.Pass(f)
+	if !e.armed || f.Dir != e.dir || len(e.base) >= e.nplan || f.Type() != "MSG" {
+		return chanpair.Pass(f) // handshake, renewal (OPN), fence
 	}
 	e.base = append(e.base, append([]byte(nil), f.Data...))
 	k := len(e.base)
@@ -250,7 +251,7 @@ func (e *emitter) onFrame(f chanpair.Frame) [][]byte {
 		st := e.steps[e.next]
 		e.next++
 		switch st.In {
-		case "drop", "hold":
+		case "drop", "hold", "renew":
 			continue
 		case "inject":
 			out = append(out, e.damage(nil, st)...)
@@ -338,7 +339,7 @@ func traceOf(b *Beh, bi *baseInfo, evs []Ev) []any {
 	}
 	tr := []any{map[string]any{"ev": "reset", "mode": b.Mode, "reqs": reqs}}
 	for _, st := range b.Steps {
-		if st.In == "drop" || st.In == "hold" {
+		if st.In == "drop" || st.In == "hold" || st.In == "renew" {
 			continue
 		}
 		c := Chunk{Kind: "X"}
@@ -413,9 +414,38 @@ func runBehReal(b *Beh, damage func(g *rig) func([]byte, Step) [][]byte) runResu
 	_, _, cur, _, _ := uasc.VerifActive(g.sendCh)
 	id := 0
 	lastMsg := b.Chunks[len(b.Chunks)-1].Msg // a behaviour that ends early (framing lost, closed) needs no more
+	renewAfter := -1                          // number of chunks on the wire when the token is renewed
+	for _, st := range b.Steps {
+		if st.In == "renew" {
+			renewAfter = st.ID
+		}
+	}
 	for m, pm := range b.Plan {
 		if m+1 > lastMsg {
 			break
+		}
+		if renewAfter == id && renewAfter >= 0 {
+			srvRec := g.r // recorder of the server channel
+			if g.side == "client" {
+				srvRec = g.s
+			}
+			ends0 := srvRec.opnEnds.Load()
+			rctx, rcancel := context.WithTimeout(context.Background(), 20*time.Second)
+			err := g.p.Client.Renew(rctx)
+			rcancel()
+			if err != nil {
+				return runResult{status: "inconclusive", detail: "renew: " + err.Error()}
+			}
+			// the server installs the new keys after it has written the OPN response: wait for this
+			// server channel's srv.opn.end event
+			for i := 0; i < 10000 && srvRec.opnEnds.Load() == ends0; i++ {
+				time.Sleep(time.Millisecond)
+			}
+			if srvRec.opnEnds.Load() == ends0 {
+				return runResult{status: "inconclusive", detail: "server did not finish the renewal"}
+			}
+			_, _, cur, _, _ = uasc.VerifActive(g.sendCh)
+			renewAfter = -1
 		}
 		if pm.Ab || pm.Cut != pm.N {
 			return runResult{status: "inconclusive", detail: "plan needs the reference sender"}
@@ -475,7 +505,7 @@ func runBehReal(b *Beh, damage func(g *rig) func([]byte, Step) [][]byte) runResu
 		}
 		return false
 	}, fwait)
-	evs := g.r.snapshot()[r0:]
+	evs := dropOPN(g.r.snapshot()[r0:])
 	// cut at the fence
 	var body []Ev
 	sawFence := false
@@ -493,6 +523,25 @@ func runBehReal(b *Beh, damage func(g *rig) func([]byte, Step) [][]byte) runResu
 		body = evs
 	}
 	return judge(b, bi, body, sawFence, fenced)
+}
+
+// dropOPN removes the receiver's events for OPN chunks (a renewal inside a behaviour): the accept
+// event of the OPN chunk and the Receive return that belongs to it.
+func dropOPN(evs []Ev) []Ev {
+	var out []Ev
+	skipRet := false
+	for _, e := range evs {
+		if e.Ev == "acc" && e.Typ == "OPN" {
+			skipRet = true
+			continue
+		}
+		if e.Ev == "ret" && skipRet {
+			skipRet = false
+			continue
+		}
+		out = append(out, e)
+	}
+	return out
 }
 
 func shape(st Step) string {
